@@ -241,15 +241,21 @@ def r2(ctx):
                     text_="nonEmpty body")
 
 
-def _consts_compared(f, var):
+def _consts_compared(f, var=None):
+    """Comparisons of a variable with a union-mask literal ('A', 'B', 'AB'):
+    [(literal, Compare node)].  The variable is recognised by what it is
+    compared with, not by its name."""
+    def masklit(e):
+        return isinstance(e, ast.Constant) and isinstance(e.value, str) and \
+            0 < len(e.value) <= 2 and set(e.value) <= {"A", "B"}
     out = []
     for n in f.own_nodes():
         if isinstance(n, ast.Compare) and len(n.ops) == 1 and \
                 isinstance(n.ops[0], (ast.Eq, ast.In)):
             l, r = n.left, n.comparators[0]
-            if isinstance(l, ast.Name) and l.id == var and isinstance(r, ast.Constant):
+            if isinstance(l, ast.Name) and masklit(r):
                 out.append((r.value, n))
-            if isinstance(r, ast.Name) and r.id == var and isinstance(l, ast.Constant):
+            if isinstance(r, ast.Name) and masklit(l):
                 out.append((l.value, n))
     return out
 
